@@ -360,12 +360,11 @@ func BuildData(prog *load.Program, m *Model) (*interp.Struct, error) {
 			"type": &interp.Opaque{Kind: "types.Type", ID: id + ".type", Attrs: map[string]interp.Value{"text": typeTextSym(p.TypeText)}},
 			"name": interp.Tok(p.Name),
 		}}
-		s, err := mkStruct(dt.Var, id, map[string]interp.Value{
-			"vr": vr, "imports": &interp.MapV{}, "moqPkgPath": interp.Lit(DestPath), "Name": interp.Tok(p.Name),
-		})
+		s, err := mkStruct(dt.Var, id, map[string]interp.Value{"Name": interp.Tok(p.Name)})
 		if err != nil {
 			return nil, err
 		}
+		s.Aux = map[string]interp.Value{"vr": vr}
 		return &interp.Ptr{Elem: s}, nil
 	}
 	mkParam := func(p ParamInfo) (*interp.Struct, error) {
@@ -557,6 +556,57 @@ func InstallTypesModels(m *interp.Machine, prog *load.Program) {
 	m.Ext["go/types.TypeString"] = render("TypeString")
 	m.Ext["go/types.ObjectString"] = render("ObjectString")
 	m.Ext["(go/types.Type).String"] = render("Type.String")
+	InstallVarModels(m)
+}
+
+// RemoveVarModels lets the real registry.Var methods be interpreted (engines R and N).
+func RemoveVarModels(m *interp.Machine) {
+	for _, form := range []string{"(*" + load.PkgRegistry + ".Var).", "(" + load.PkgRegistry + ".Var)."} {
+		delete(m.Ext, form+"TypeString")
+		delete(m.Ext, form+"IsSlice")
+	}
+}
+
+// InstallVarModels models the exported rendering methods of registry.Var on the abstract variables of
+// engine M: the type text of the variable's type (that the real TypeString renders through the file's
+// qualifier is decided on the real code by engine N's qualifier table) and whether it is a slice.
+func InstallVarModels(m *interp.Machine) {
+	typeOf := func(recv interp.Value) *interp.Opaque {
+		var st *interp.Struct
+		switch r := recv.(type) {
+		case *interp.Ptr:
+			st = r.Elem
+		case *interp.Struct:
+			st = r
+		}
+		if st == nil {
+			return nil
+		}
+		vr, _ := st.Aux["vr"].(*interp.Opaque)
+		if vr == nil {
+			return nil
+		}
+		t, _ := vr.Attrs["type"].(*interp.Opaque)
+		return t
+	}
+	for _, form := range []string{"(*" + load.PkgRegistry + ".Var).", "(" + load.PkgRegistry + ".Var)."} {
+		m.Ext[form+"TypeString"] = func(m *interp.Machine, pos token.Pos, recv interp.Value, args []interp.Value) (interp.Value, error) {
+			if t := typeOf(recv); t != nil {
+				if text, ok := t.Attrs["text"].(*interp.Sym); ok {
+					return text, nil
+				}
+			}
+			return &interp.Unknown{Why: "Var.TypeString of " + interp.Show(recv)}, nil
+		}
+		m.Ext[form+"IsSlice"] = func(m *interp.Machine, pos token.Pos, recv interp.Value, args []interp.Value) (interp.Value, error) {
+			if t := typeOf(recv); t != nil {
+				if text, ok := t.Attrs["text"].(*interp.Sym); ok {
+					return strings.HasPrefix(text.Flat(), "[]"), nil
+				}
+			}
+			return &interp.Unknown{Why: "Var.IsSlice of " + interp.Show(recv)}, nil
+		}
+	}
 }
 
 func ownerID(v interp.Value) string {
